@@ -637,7 +637,16 @@ func (in *Interp) global(g *ssa.Global) *Cell {
 		}
 	}
 	if g.Pkg != nil && g.Pkg.Pkg.Path() == "time" && (g.Name() == "UTC" || g.Name() == "Local") {
-		// distinct location objects (the time package's initialiser is not run)
+		// what the time package's initialiser (not run) does: UTC = &utcLoc, Local = &localLoc
+		target := "utcLoc"
+		if g.Name() == "Local" {
+			target = "localLoc"
+		}
+		if tg, ok := g.Pkg.Members[target].(*ssa.Global); ok {
+			in.globals[g] = c
+			c.V = PtrV{in.global(tg)}
+			return c
+		}
 		c.V = PtrV{in.newCell(in.zero(deref(deref(g.Type()))))}
 		in.globals[g] = c
 		return c
